@@ -100,6 +100,9 @@ pub struct EngineCfg {
     pub via_iter: bool,
     pub verify_commit: bool,
     pub fsck_commit: bool,
+    /// false: structural complaints of the file checker are recorded in the commit record but do
+    /// not end the run (checks whose own oracle needs the later history, e.g. C06's differential)
+    pub fsck_fail: bool,
     pub db_check: bool,
     pub sweep: bool,
     pub probe: bool,
@@ -128,6 +131,7 @@ impl EngineCfg {
             via_iter: false,
             verify_commit: true,
             fsck_commit: true,
+            fsck_fail: true,
             db_check: false,
             sweep: false,
             probe: false,
@@ -728,7 +732,7 @@ impl<'a> Engine<'a> {
                 None
             }
             Ok(rep) => {
-                if let Some(e) = rep.errors.first() {
+                if let (Some(e), true) = (rep.errors.first(), self.cfg.fsck_fail) {
                     self.fail("fsck", site, format!("{} (+{} more)", e, rep.errors.len() - 1), false);
                 }
                 Some(rep)
@@ -961,6 +965,12 @@ impl<'a> Engine<'a> {
                     self.out.stats.probe("file_growth");
                 }
                 self.last_file_len = rep.shape.file_len;
+                if !rep.errors.is_empty() {
+                    let mut h = Fnv::default();
+                    rep.contents.digest_into(&mut h, false);
+                    h.str(&rep.errors[0]);
+                    rec.contents_digest = h.0;
+                }
                 if rep.errors.is_empty() {
                     let mut h = Fnv::default();
                     rep.contents.digest_into(&mut h, false);
